@@ -245,6 +245,9 @@ class Interp:
         self.param_values = param_values or {}    # param name -> abstract value
         self.valuation = list(valuation or [])     # [(Form, number)]: assumed numeric value of a sub-term (e.g. a length)
         self.cmp_points: set = set()               # numeric values met in decided order/equality comparisons
+        self.fit_log: list = []                    # (call node, args, kwargs, depth) of every estimator.fit(...) met, in order
+        self.stop_at_calls: set = set()            # dotted callee names at which a top-level path is cut (counts as a return)
+        self.falsy_arith: list = []                # (fi, node, operand, depth): arithmetic on a value assumed falsy (absent optional parameter)
         self.nested_raises: list = []              # raise outcomes inside inlined callees that also have returning paths
         self.keep_cond_forms = False               # record the value form of every undecided `if` test (by its source text)
         self.cond_forms: dict = {}
@@ -1368,6 +1371,8 @@ class Interp:
         for opnd in (l, r):
             if (isinstance(opnd, Const) and opnd.v is None) or (isinstance(opnd, Form) and st.facts.none.get(opnd.key()) is True):
                 self.none_arith.append((fi, node, opnd))
+            elif isinstance(opnd, Form) and st.facts.truth.get(opnd.key()) is False and opnd.const_value() is None:
+                self.falsy_arith.append((fi, node, opnd, depth))
         lf, rf = num_form(l), num_form(r)
         if lf is not None and rf is not None:
             if t is ast.Add:
@@ -1635,6 +1640,11 @@ class Interp:
         name = self._callee_name(n.func, st, fi)
         rec = CallRec(n, name, args, kwargs, list(st.conds), fi, depth, st.facts)
         self.calls.append(rec)
+        if name is not None and name in self.stop_at_calls and depth == 0 and st.live:
+            # the analysis only needs the path up to this call: treat reaching it as a (successful) exit
+            self._stack[-1][1].append(Outcome("return", Form.atom(("opaque", "reached " + name)), list(st.conds), n))
+            st.live = False
+            return Form.atom(("opaque", "stopped at " + name))
         res = self._dispatch_call(n, name, args, kwargs, st, fi, depth, rec)
         rec.result = res
         return res
@@ -1646,7 +1656,21 @@ class Interp:
             if isinstance(func, ast.Attribute):
                 base = self.eval(func.value, st, fi, depth)
                 rec.callee = f"<{type(base).__name__}>.{func.attr}"
-                return self._method_call(base, func.attr, args, kwargs, st, fi, depth, n, rec)
+                res = self._method_call(base, func.attr, args, kwargs, st, fi, depth, n, rec)
+                if func.attr == "fit" and isinstance(base, Form):
+                    root = base
+                    ra = root.single_atom()
+                    if ra is not None and ra[0] == "fn" and ra[1] == "fitted":
+                        root, ra = ra[2][0], ra[2][0].single_atom()      # a refit replaces the previously fitted state
+                    if ra is not None and ra[0] == "fn" and isinstance(ra[1], str) and ra[1].startswith("sklearn."):
+                        # scikit-learn estimators: fit() stores the fitted state on the estimator and returns it.  The fitted
+                        # estimator is `fitted(estimator, k)`; the data of the k-th fit are kept in fit_log (forms stay small)
+                        k = len(self.fit_log)
+                        self.fit_log.append((n, list(args), dict(kwargs), depth))
+                        res = mk_fn("fitted", [root, Form.num(k)])
+                        if isinstance(func.value, ast.Name) and func.value.id in st.env:
+                            st.env[func.value.id] = res
+                return res
             fv = self.eval(func, st, fi, depth)
             return self._call_value(fv, args, kwargs, st, fi, depth, n, rec)
         # --- builtins
